@@ -247,6 +247,27 @@ func (m *vMonC16) AfterTx(h *vHist, o *vTxObs) {
 		}
 		flush()
 	}
+	// the statement is about marketplace events: those of the deployment,
+	// market, provider and audit modules (the ones events/publish.go hands to
+	// the provider); akash.v1 events of any other module are counted only
+	{
+		var mk []abci.Event
+		for _, e := range akash {
+			mod := ""
+			for _, a := range e.Attributes {
+				if string(a.Key) == sdk.AttributeKeyModule {
+					mod = string(a.Value)
+				}
+			}
+			switch mod {
+			case "deployment", "market", "provider", "audit":
+				mk = append(mk, e)
+			default:
+				m.res.Count("akash_events_of_other_modules", 1)
+			}
+		}
+		akash = mk
+	}
 	if !o.OK {
 		if len(akash) > 0 {
 			h.Violation("failed-tx-carries-no-marketplace-event", kind, fmt.Sprintf("failed %s carries %d akash events, first %s", kind, len(akash), vEventString(akash[0])))
